@@ -24,6 +24,7 @@ RLIMIT = os.environ.get("VERIF_RLIMIT", "100")
 SEMANTIC = [
     ("postcondition not satisfied", "postcondition"),
     ("precondition not satisfied", "precondition"),
+    ("precondition not met", "precondition"),    # built-in array index: "precondition not met: index in bounds for this access"
     ("assertion failed", "assertion"),
     ("possible arithmetic underflow/overflow", "overflow"),
     ("possible division by zero", "div0"),
